@@ -104,6 +104,12 @@ def body_ref(c, ctx):
             e1.lbasis(X.copy(), i)
             a = e1.lbasis(X2.copy(), i)
             b = build_element(d).lbasis(X2.copy(), i)
+            # ... and at an array object it has seen before whose CONTENTS the caller has changed in place meanwhile
+            Xb = X.copy()
+            e1.lbasis(Xb, i)
+            Xb[...] = X2
+            a = tuple(a) + tuple(e1.lbasis(Xb, i))
+            b = tuple(b) + tuple(build_element(d).lbasis(X2.copy(), i))
             for fa, fb in zip(a, b):
                 if fa is None or fb is None:
                     continue
@@ -362,6 +368,13 @@ def mapped_enum_cases(tier):
                 continue
             for i in picks_:
                 out.append(dict(mesh=mesh, elem=d, pick=i, layout='shared', tind=['none', 'subset'][i % 2]))
+    # composites of one shared element instance (e * e)
+    for name in ('ElementTriP1', 'ElementTriP2', 'ElementQuad1', 'ElementTetP1', 'ElementLineP1'):
+        kind = ge.R[name]['ref']
+        from ..cases import build_element
+        comp = dict(cls='ElementComposite', of=[dict(cls=name), dict(cls=name)], share=True)
+        for i in range(len(build_element(comp).doflocs)):
+            out.append(dict(mesh=FIXED[kind], elem=comp, pick=i, layout='shared', tind='none'))
     return out
 
 # ------------------------------------------------------------------------------ duality etc.
@@ -381,6 +394,10 @@ def dual_cases(tier):
         if info['family'].startswith('global'):
             for g in range(len(GEO[info['ref']])):
                 out.append(dict(kind='global', elem=d, geo=g))
+    # composites (also of one shared instance, e * e): every component is a partition of unity of its own
+    for name in ('ElementTriP1', 'ElementTriP2', 'ElementQuad1', 'ElementTetP1', 'ElementLineP2'):
+        for share in (True, False):
+            out.append(dict(kind='composite_pou', elem=dict(cls='ElementComposite', of=[dict(cls=name), dict(cls=name)], share=share)))
     # wrappers keep the nodal/pou structure componentwise
     for base in ('ElementTriP2', 'ElementQuad2', 'ElementTetP2', 'ElementHex1', 'ElementLineP2'):
         out.append(dict(kind='nodal', elem=dict(cls='ElementDG', of=dict(cls=base))))
@@ -411,14 +428,26 @@ def body_dual(c, ctx):
     from ..oracle import fd, maps
     d = c['elem']
     base = d
-    while base['cls'] in ('ElementDG', 'ElementVector'):
-        base = base['of']
+    while base['cls'] in ('ElementDG', 'ElementVector', 'ElementComposite'):
+        base = base['of'][0] if base['cls'] == 'ElementComposite' else base['of']
     info = ge.R[base['cls']]
     kind = info['ref']
     lab = ge.label(d)
     sig = dict(elem=lab, what_kind=c['kind'])
     ctx.cls(c['kind'], info['family'])
     ctx.nt(True)
+    if c['kind'] == 'composite_pou':
+        from skfem import CellBasis
+        from ..cases import build_mesh
+        m = build_mesh(FIXED[kind])
+        b = CellBasis(m, build_element(d), intorder=3)
+        ncomp = len(d['of'])
+        for k in range(ncomp):
+            s = sum(np.asarray(b.basis[i][k].value) for i in range(b.Nbfun))
+            if not np.allclose(s, 1.0, rtol=0, atol=1e-12):
+                ctx.fail('partition_of_unity', f'component {k} of the composite sums to {float(np.asarray(s).ravel()[0])!r} instead of 1', **sig)
+                return
+        return
     if c['kind'] == 'nodal':
         e = build_element(d)
         loc = np.asarray(e.doflocs, dtype=float)
